@@ -69,7 +69,7 @@ def pandas_read_text(
     dask.dataframe.csv.read_pandas_from_bytes
     """
     bio = BytesIO()
-    if write_header and not b.startswith(header.rstrip()):
+    if write_header:
         bio.write(header)
     bio.write(b)
     bio.seek(0)
